@@ -155,7 +155,7 @@ class C10(PoolCheck):
                 elif ab and r['aborted']:
                     # an aborted operation ends in the abort's own exception or a library exception
                     if res['k'] == 'raise' and not res.get('lib') and res['cls'] not in (
-                            'AsyncAbort', 'ForeignHookError', 'InjectedOSError'):
+                            'AsyncAbort', 'ForeignHookError', 'InjectedOSError') and not self.raises_anyway(case, op, res):
                         violations.append({'signature': {'clause': 'abort-ended-in-foreign-exception',
                                                          'cls': res['cls'], 'abort': ab['kind']},
                                            'detail': {'entry': case['entry'], 'index': i, 'op': op, 'got': short(res)}})
@@ -173,6 +173,16 @@ class C10(PoolCheck):
         return {'violations': violations, 'skeleton': [e.family.name, e.version, skel], 'nontrivial': nontrivial,
                 'counters': counters, 'digest': core.stable_hash(results),
                 'sample': {'case': case, 'kinds': [r.get('k') for r in results]}}
+
+    def raises_anyway(self, case, op, res):
+        """The fault-free operation on a fresh schema ends in the same exception (a path the document's own
+        declarations cannot resolve): the abort has no part in it."""
+        rop = {k: v for k, v in op.items() if k not in ('doc', 'abort')}
+        try:
+            ref = self.ref(case['entry'], op['doc'], rop)
+        except KeyError:
+            return False
+        return ref.get('k') == 'raise' and ref.get('cls') == res['cls']
 
     def shrink(self, case):
         h = case['history']
